@@ -15,6 +15,7 @@ inductive Err where
   | valueError      -- numpy.frombuffer / reshape on a buffer of the wrong size
   | indexError      -- `numpy.frombuffer(b"", ">u4")[0]`
   | keyError        -- DAP4 type not in the table
+  | eofError        -- `BytesReader.read` / `stream2bytearray` on data that ends early (fix 72d8e7c)
 deriving Repr, DecidableEq
 
 /-! ### chunk header: `numpy.frombuffer(hdr, dtype=">u4")[0]`, `& 0x00FFFFFF`, `>> 24 & 0xFF` -/
@@ -52,18 +53,22 @@ def decodeChunkType (hostLittle : Bool) (t : Nat) : ChunkFlags :=
 /-! ### `stream2bytearray` -/
 
 /-- the `while offset < len(data)` loop; `data` is what is left from `offset` on. Each turn consumes
-    at least the four header bytes, so `data.length` turns of fuel are enough. Returns the chunk bodies. -/
+    at least the four header bytes, so `data.length` turns of fuel are enough. Returns the chunk bodies.
+    Since fix 72d8e7c the data must hold every announced byte and end with a chunk flagged `last`:
+    a short header, a short body and running out of data (the loop's `else`) raise `EOFError`. -/
 def chunkBodies (hostLittle : Bool) : Nat → Bytes → Except Err (List Bytes)
-  | 0, _ => .ok []
-  | _ + 1, [] => .ok []
+  | _, [] => .error .eofError                       -- `while … else`: no last chunk (also: no data at all)
+  | 0, _ :: _ => .error .eofError                   -- not reached with fuel = `data.length`
   | f + 1, b0 :: b1 :: b2 :: b3 :: rest =>
     let h := be32 b0 b1 b2 b3
     let size := chunkSize h
     let flags := decodeChunkType hostLittle (chunkType h)
-    let body := rest.take size                      -- `data[offset:offset+size]`: silently short at the end
-    if flags.last then .ok [body]
-    else (chunkBodies hostLittle f (rest.drop size)).map (body :: ·)
-  | _ + 1, _ => .error .valueError                  -- frombuffer on 1..3 bytes
+    if rest.length < size then .error .eofError     -- `offset + 4 + chunk_size > len(data)`
+    else
+      let body := rest.take size                    -- `data[offset:offset+size]`
+      if flags.last then .ok [body]
+      else (chunkBodies hostLittle f (rest.drop size)).map (body :: ·)
+  | _ + 1, _ => .error .eofError                    -- 1..3 bytes: `offset + 4 > len(data)`
 
 def stream2bytearray (hostLittle : Bool) (data : Bytes) : Except Err Bytes :=
   (chunkBodies hostLittle data.length data).map List.flatten
@@ -77,11 +82,12 @@ structure Split where
 deriving Repr, DecidableEq
 
 def safeDmrAndData (hostLittle : Bool) : Bytes → Except Err Split
-  | [] => .error .indexError
   | b0 :: b1 :: b2 :: b3 :: rest =>
     let h := be32 b0 b1 b2 b3
-    .ok ⟨rest.take (chunkSize h), rest.drop (chunkSize h), (decodeChunkType hostLittle (chunkType h)).little⟩
-  | _ => .error .valueError
+    if rest.length < chunkSize h then .error .eofError      -- `self.raw.read(dmr_length)`
+    else
+      .ok ⟨rest.take (chunkSize h), rest.drop (chunkSize h), (decodeChunkType hostLittle (chunkType h)).little⟩
+  | _ => .error .eofError                                   -- `self.raw.read(4)` on 0..3 bytes
 
 /-! ### items in the response byte order -/
 
